@@ -514,3 +514,9 @@ pub use crate::xtypes::deserializer::{
 pub use crate::xtypes::serializer::{
     serialize_cdr1_be, serialize_cdr1_le, serialize_cdr2_be, serialize_cdr2_le,
 };
+
+// ---- engine `xcdr` (C11, C12): instance-handle / key-holder computation ----
+pub use crate::dcps::xtypes_glue::key_and_instance_handle::{
+    KeyHolderData, KeyHolderType, get_instance_handle_from_dynamic_data,
+    get_instance_handle_from_key_holder_data,
+};
